@@ -587,6 +587,34 @@ def check_formulas(ctx, ir):
         decide_equal(ctx, R, inst, file, '%s|%s|%s|formula' % (R, file, fn), got, want, okmsg, inst)
         return s
 
+    # ---- the sequence is over the extent it was given: dimensions() returns it unchanged (an empty extent stays empty)
+    sdm = ir.summary(R, 'index_sequence_3D::dimensions', 'K_dims3', SEQ)
+    if sdm is not None:
+        inst_ = 'index_sequence_3D::dimensions'
+        try:
+            got_ = [sdm.value('out[%d]' % o) for o in (0, 8, 16)]
+            want_ = S('dims', (0, 8, 16))
+            bad_ = [(k_, g_) for k_, (g_, w_) in enumerate(zip(got_, want_)) if not I.equal(g_, w_)]
+            if not bad_:
+                ctx.ok(R, inst_, 'the extents passed to the constructor', SEQ)
+            elif any(I.opaque_atoms(g_) for _, g_ in bad_):
+                ctx.undecided(R, inst_, 'component %d is %s' % bad_[0], SEQ)
+            else:
+                k_, g_ = bad_[0]
+                at0 = I.refold(g_.xreplace({want_[k_]: sp.Integer(0)}))
+                try:
+                    at0 = [t_ for gd_, t_ in I.cases(at0, []) ][0] if at0.has(I.Sel) else at0
+                except Exception:
+                    pass
+                ctx.violation(R, inst_, 'the sequence does not keep the extent it was constructed with: component %d is %s instead of %s%s'
+                              % (k_, g_, want_[k_],
+                                 ' - a zero extent is stored as %s, so an empty index space becomes a non-empty one: total_indices() is not 0, '
+                                 'begin() != end(), and iterating visits coordinates none of which lies inside the (empty) extent; '
+                                 'flatten / reshape / total_indices then disagree with the extent the caller sized its buffers with' % at0
+                                 if at0 != 0 and not getattr(at0, 'free_symbols', None) else ''),
+                              SEQ, key='%s|%s|multidim_index_sequence::dimensions|extent' % (R, SEQ))
+        except (Undecided, KeyError) as e:
+            ctx.undecided(R, inst_, str(e), SEQ)
     # ---- linear index
     one('K_flatten2', 'index_sequence_2D::flatten', SEQ, 'multidim_index_sequence::flatten(2D)', 'ret',
         lin(S('c', (0, 8)), S('dims', (0,))), 'x + dx*y')
@@ -980,6 +1008,59 @@ def flat_loop(tu, stmts, lo, hi, fun):
     return None
 
 
+def contains_term(t, sub):
+    if t == sub:
+        return True
+    return isinstance(t, tuple) and any(contains_term(x, sub) for x in t)
+
+
+def is_functor_call(t, fun):
+    """normal form of functor(...) on the parameter `fun`"""
+    return isinstance(t, tuple) and ((t[0] == 'op' and t[1] == '()' and len(t[2]) >= 1 and t[2][0] == ('ref', 'ParmVarDecl', fun)) or
+                                     (t[0] == 'call' and t[2] == ('ref', 'ParmVarDecl', fun)))
+
+
+def find_functor_calls(t, fun, out):
+    if is_functor_call(t, fun):
+        out.append(t)
+    if isinstance(t, tuple):
+        for x in t:
+            find_functor_calls(x, fun, out)
+    return out
+
+
+def visit_helper(tu, cn, env, fun, depth=0):
+    """A call `helper(functor, idx, ...)` used as the innermost statement / in its condition: evaluate the (instantiated) helper body
+    made of expression statements and one final return.  -> (normal forms of the functor invocations made, normal form of the value
+    returned | None) or None when the body is anything else."""
+    c = tu.callee_fn(cn)
+    if c is None or c['dep'] or tu.body(c) is None or depth > 3:
+        return None
+    _, _, cargs = tu.call_parts(cn)
+    if len(cargs) != len(c['params']):
+        return None
+    env2 = dict(env)
+    for prm, av in zip(c['params'], cargs):
+        env2[prm['id']] = nf(tu, av, env)
+    calls, ret = [], None
+    sts = tu.kids(tu.body(c))
+    for i_, st in enumerate(sts):
+        if st.get('kind') == 'ReturnStmt':
+            if i_ != len(sts) - 1:
+                return None
+            if tu.kids(st):
+                ret = nf(tu, tu.kids(st)[0], env2)
+                find_functor_calls(ret, fun, calls)
+        elif st.get('kind') in ('DeclStmt', 'IfStmt', 'ForStmt', 'WhileStmt', 'DoStmt', 'SwitchStmt', 'CompoundStmt'):
+            return None
+        else:
+            t_ = nf(tu, st, env2)
+            if not is_functor_call(t_, fun):
+                return None
+            calls.append(t_)
+    return calls, ret
+
+
 def check_for_each(ctx, tu):
     R = 'R-C17-4'
     n = 0
@@ -1000,7 +1081,9 @@ def check_for_each(ctx, tu):
             else:
                 lo, hi, fun = (p['name'] for p in params)
             comp_expected = ['z', 'y', 'x']
-            cur = tu.kids(tu.body(f))
+            cur = [st_ for st_ in tu.kids(tu.body(f))
+                   if not (st_.get('kind') == 'DeclStmt' and tu.kids(st_) and
+                           all(d_.get('kind') in ('TypeAliasDecl', 'TypedefDecl', 'StaticAssertDecl', 'UsingDecl') for d_ in tu.kids(st_)))]
             level = 0
             loopvars = {}
             # leading early-outs `if (C) return;` are fine when C implies that the region is empty
@@ -1173,6 +1256,38 @@ def check_for_each(ctx, tu):
                 else:
                     call = nf(tu, node, env)
                     ok_call = False
+                    if node is not None and node.get('kind') == 'IfStmt':
+                        # `if (C) return / break;` as the innermost statement: the traversal is abandoned when C holds.  C may only
+                        # depend on the invocation through a helper whose result is a constant; a C that tests what the functor
+                        # returned ends the traversal early for callables that return a value.
+                        parts_ = [x for x in node.get('inner', []) if isinstance(x, dict) and x.get('kind')]
+                        then_ = parts_[1] if len(parts_) == 2 else None
+                        while then_ is not None and then_.get('kind') == 'CompoundStmt' and len(tu.kids(then_)) == 1:
+                            then_ = tu.kids(then_)[0]
+                        if then_ is not None and then_.get('kind') in ('ReturnStmt', 'BreakStmt', 'GotoStmt') and not tu.kids(then_):
+                            cnode = tu.strip(parts_[0], casts=True)
+                            negs = 0
+                            while cnode is not None and cnode.get('kind') == 'UnaryOperator' and cnode.get('opcode') == '!':
+                                negs += 1
+                                cnode = tu.strip(tu.kids(cnode)[0], casts=True)
+                            calls_, ret_ = [], None
+                            vh = visit_helper(tu, cnode, env, fun) if cnode is not None and cnode.get('kind') == 'CallExpr' else None
+                            if vh is not None:
+                                calls_, ret_ = vh
+                            else:
+                                ret_ = nf(tu, cnode, env) if cnode is not None else None
+                                calls_ = find_functor_calls(ret_, fun, [])
+                            rc_ = drop_casts(ret_) if ret_ is not None else None
+                            if len(calls_) == 1 and rc_ is not None and rc_[0] == 'int' and bool(rc_[1]) == (negs % 2 == 1):
+                                call = calls_[0]           # the condition is constantly false: the statement is the plain invocation
+                            elif len(calls_) == 1 and rc_ is not None and contains_term(rc_, drop_casts(calls_[0])):
+                                problems.append(('early-exit', 'the loop nest is left (%s) when the value returned by the functor converts to '
+                                                 '%s: for_each visits every cell of the region whatever the callable returns - with a '
+                                                 'callable that returns a value (a counter, a running sum, a pointer) the traversal now '
+                                                 'ends at the first cell where that value is %s, and the remaining cells are never visited'
+                                                 % (then_.get('kind').replace('Stmt', '').lower(), 'false' if negs % 2 else 'true',
+                                                    '0 / null / false' if negs % 2 else 'non-zero')))
+                                call = calls_[0]
                     if call[0] == 'op' and call[1] == '()' and len(call[2]) == 2:
                         callee, arg = call[2]
                         if callee == ('ref', 'ParmVarDecl', fun) and arg[0] == 'ctor' and len(arg[2]) == 3:
@@ -2727,7 +2842,7 @@ def check_value_range(ctx, tu):
         body = tu.body(f)
         # the region that is scanned must be the one that was asked for: get() is virtual and only some arrays clamp
         env_r = {}
-        region_bad = region_und = None
+        region_bad = region_und = region_shrunk = None
         for d_ in tu.walk(body):
             if d_.get('kind') == 'VarDecl' and 'id' in d_ and d_['id'] not in env_r and tu.kids(d_) and \
                     'range_t<' not in d_.get('type', {}).get('qualType', '') and tu.kids(d_)[-1].get('kind') != 'LambdaExpr':
@@ -2743,11 +2858,31 @@ def check_value_range(ctx, tu):
                     continue
                 if z_slab_region(tu, x, a0, a1, pb, pe, env_r):
                     continue
+                def const_vec(t_):
+                    if isinstance(t_, tuple) and t_ and t_[0] == 'ctor' and len(t_[2]) in (1, 3) and all(c_[0] == 'int' for c_ in t_[2]):
+                        v_ = [c_[1] for c_ in t_[2]]
+                        return v_ * 3 if len(v_) == 1 else v_
+                    return None
+                off_lo = None
+                if a0[0] == 'op' and a0[1] == '+' and len(a0[2]) == 2 and pb in a0[2]:
+                    off_lo = const_vec([t_ for t_ in a0[2] if t_ != pb][0] if a0[2][0] != a0[2][1] else None)
+                if off_lo is not None and a1 == pe and all(c_ >= 0 for c_ in off_lo) and any(c_ > 0 for c_ in off_lo):
+                    region_shrunk = (x, a0, a1, off_lo)
+                    continue
                 txt = repr((a0, a1))
                 if '::size' in txt or "'max'" in txt or "'min'" in txt or 'math::max' in txt or 'math::min' in txt or 'clamp' in txt:
                     region_bad = (x, a0, a1)
                 else:
                     region_und = (x, a0, a1)
+        if region_shrunk is not None:
+            x, a0, a1, off_lo = region_shrunk
+            ax = 'xyz'[[i_ for i_, c_ in enumerate(off_lo) if c_ > 0][0]]
+            ctx.violation(R, inst, 'scans for_each(%s, %s): the box [begin + (%s), end) instead of the requested region [begin, end) - moving the '
+                          'lower corner of a box removes a whole slab of it, every cell with %s < begin.%s + %d in every row, not just the cell '
+                          '`begin` the range was seeded with; a minimum or maximum lying in that slab (outside the seed cell) is not bounded by '
+                          'the result' % (show(a0)[:70], show(a1)[:40], ', '.join(map(str, off_lo)), ax, ax, max(off_lo)),
+                          tu.loc(x), key=key + 'region-shrunk')
+            continue
         if region_bad is not None:
             x, a0, a1 = region_bad
             ctx.violation(R, inst, 'scans for_each(%s, %s) instead of the requested region [begin, end): the region is restricted to the '
